@@ -1233,6 +1233,9 @@ func (s *ImmuStore) SnapshotMustIncludeTxIDWithRenewalPeriod(ctx context.Context
 }
 
 func (s *ImmuStore) CommittedAlh() (uint64, [sha256.Size]byte) {
+	if simhook.Enabled {
+		simhook.BeforeLock("store.csm-r", s.simTryCommitStateR)
+	}
 	s.commitStateRWMutex.RLock()
 	defer s.commitStateRWMutex.RUnlock()
 
@@ -1240,6 +1243,9 @@ func (s *ImmuStore) CommittedAlh() (uint64, [sha256.Size]byte) {
 }
 
 func (s *ImmuStore) PrecommittedAlh() (uint64, [sha256.Size]byte) {
+	if simhook.Enabled {
+		simhook.BeforeLock("store.csm-r", s.simTryCommitStateR)
+	}
 	s.commitStateRWMutex.RLock()
 	defer s.commitStateRWMutex.RUnlock()
 
@@ -1260,6 +1266,9 @@ func (s *ImmuStore) PrecommittedAlh() (uint64, [sha256.Size]byte) {
 }
 
 func (s *ImmuStore) precommittedAlh() (uint64, [sha256.Size]byte) {
+	if simhook.Enabled {
+		simhook.BeforeLock("store.csm-r", s.simTryCommitStateR)
+	}
 	s.commitStateRWMutex.RLock()
 	defer s.commitStateRWMutex.RUnlock()
 
@@ -1475,6 +1484,9 @@ func (s *ImmuStore) Size() (uint64, error) {
 }
 
 func (s *ImmuStore) TxCount() uint64 {
+	if simhook.Enabled {
+		simhook.BeforeLock("store.csm-r", s.simTryCommitStateR)
+	}
 	s.commitStateRWMutex.RLock()
 	defer s.commitStateRWMutex.RUnlock()
 
@@ -1542,6 +1554,9 @@ func (s *ImmuStore) fetchVLog(vLogID byte) (appendable.Appendable, error) {
 			return nil, fmt.Errorf("%w: attempt to read from a non-embedded vlog while using embedded values", ErrUnexpectedError)
 		}
 
+		if simhook.Enabled {
+			simhook.BeforeLock("store.csm-w", s.simTryCommitStateW)
+		}
 		s.commitStateRWMutex.Lock()
 		return s.txLog, nil
 	}
@@ -1890,6 +1905,9 @@ func (s *ImmuStore) precommit(ctx context.Context, otx *OngoingTx, hdr *TxHeader
 }
 
 func (s *ImmuStore) LastCommittedTxID() uint64 {
+	if simhook.Enabled {
+		simhook.BeforeLock("store.csm-r", s.simTryCommitStateR)
+	}
 	s.commitStateRWMutex.RLock()
 	defer s.commitStateRWMutex.RUnlock()
 
@@ -1897,6 +1915,9 @@ func (s *ImmuStore) LastCommittedTxID() uint64 {
 }
 
 func (s *ImmuStore) LastPrecommittedTxID() uint64 {
+	if simhook.Enabled {
+		simhook.BeforeLock("store.csm-r", s.simTryCommitStateR)
+	}
 	s.commitStateRWMutex.RLock()
 	defer s.commitStateRWMutex.RUnlock()
 
@@ -1904,6 +1925,9 @@ func (s *ImmuStore) LastPrecommittedTxID() uint64 {
 }
 
 func (s *ImmuStore) MandatoryMVCCUpToTxID() uint64 {
+	if simhook.Enabled {
+		simhook.BeforeLock("store.csm-r", s.simTryCommitStateR)
+	}
 	s.commitStateRWMutex.RLock()
 	defer s.commitStateRWMutex.RUnlock()
 
@@ -1911,6 +1935,9 @@ func (s *ImmuStore) MandatoryMVCCUpToTxID() uint64 {
 }
 
 func (s *ImmuStore) performPrecommit(tx *Tx, entries []*EntrySpec, ts int64, blTxID uint64) error {
+	if simhook.Enabled {
+		simhook.BeforeLock("store.csm-w", s.simTryCommitStateW)
+	}
 	s.commitStateRWMutex.Lock()
 	defer s.commitStateRWMutex.Unlock()
 
@@ -2103,6 +2130,9 @@ func (s *ImmuStore) performPrecommit(tx *Tx, entries []*EntrySpec, ts int64, blT
 }
 
 func (s *ImmuStore) SetExternalCommitAllowance(enabled bool) {
+	if simhook.Enabled {
+		simhook.BeforeLock("store.csm-w", s.simTryCommitStateW)
+	}
 	s.commitStateRWMutex.Lock()
 	defer s.commitStateRWMutex.Unlock()
 
@@ -2128,6 +2158,9 @@ func (s *ImmuStore) DiscardPrecommittedTxsSince(txID uint64) (int, error) {
 		return 0, ErrAlreadyClosed
 	}
 
+	if simhook.Enabled {
+		simhook.BeforeLock("store.csm-w", s.simTryCommitStateW)
+	}
 	s.commitStateRWMutex.Lock()
 	defer s.commitStateRWMutex.Unlock()
 
@@ -2184,6 +2217,9 @@ func (s *ImmuStore) DiscardPrecommittedTxsSince(txID uint64) (int, error) {
 }
 
 func (s *ImmuStore) AllowCommitUpto(txID uint64) error {
+	if simhook.Enabled {
+		simhook.BeforeLock("store.csm-w", s.simTryCommitStateW)
+	}
 	s.commitStateRWMutex.Lock()
 	defer s.commitStateRWMutex.Unlock()
 
@@ -3062,6 +3098,9 @@ func (s *ImmuStore) ReplicateTx(ctx context.Context, exportedTx []byte, skipInte
 		return nil, err
 	}
 
+	if simhook.Enabled {
+		simhook.BeforeLock("store.csm-w", s.simTryCommitStateW)
+	}
 	s.commitStateRWMutex.Lock()
 	waitForCommit := !s.useExternalCommitAllowance
 	s.commitStateRWMutex.Unlock()
@@ -3149,6 +3188,9 @@ func (s *ImmuStore) LastTxUntil(ts time.Time) (*TxHeader, error) {
 }
 
 func (s *ImmuStore) appendableReaderForTx(txID uint64, allowPrecommitted bool) (*appendable.Reader, error) {
+	if simhook.Enabled {
+		simhook.BeforeLock("store.csm-w", s.simTryCommitStateW)
+	}
 	s.commitStateRWMutex.Lock()
 	defer s.commitStateRWMutex.Unlock()
 
@@ -3463,6 +3505,9 @@ func (s *ImmuStore) Sync() error {
 }
 
 func (s *ImmuStore) sync() error {
+	if simhook.Enabled {
+		simhook.BeforeLock("store.csm-w", s.simTryCommitStateW)
+	}
 	s.commitStateRWMutex.Lock()
 	defer s.commitStateRWMutex.Unlock()
 
